@@ -227,6 +227,10 @@ impl Monitor for C05 {
             (Err(eng::EngErr::Panic(p)), _) => Verdict::Violated(vec![Violation::new(format!("join|{}|panic:{}", shape, p.class()), p.describe())]),
             (_, Err(eng::EngErr::Panic(_))) => Verdict::Inconclusive("lower-layer-panic".into()),
             (Err(_), Err(_)) => Verdict::Inconclusive("both-error".into()),
+            // with LIMIT the pre-joined run stops at the line of its n-th row, the join has paired the whole queried line before the
+            // limit is applied: an error in a later pair of that line is the error the unlimited statement reports (C07: LIMIT n =
+            // the first n rows of the statement without LIMIT), not a fault of the join
+            (Err(_), Ok(_)) if !aggregate && strip_limit(case["stmt_j"].as_str().unwrap_or("")).map(|q| matches!(eng::parse(&q).and_then(|st| eng::exec_batch(&jt, &st, &jlines)), Err(eng::EngErr::Err(_)))).unwrap_or(false) => { obs.hit("limit:error-in-a-later-pair"); Verdict::Inconclusive("error-in-a-pair-beyond-the-limit".into()) }
             (Err(e), Ok(_)) => Verdict::Violated(vec![Violation::new(format!("join|{}|error-only-with-join", shape), format!("{:?}: {} (the same statement over the paired rows succeeds)", sql, e.show()))]),
             (Ok(g), Err(e)) => {
                 // the pre-joined evaluation sees every pair; the join may legitimately never reach a failing pair only if there is none
@@ -264,4 +268,10 @@ fn rebuild(t: &StdTable, rng: &mut Rng, json: bool) -> StdTable {
         fresh.spec.cols.retain(|c| keep.contains(&c.name));
     }
     fresh
+}
+
+/// the statement without its trailing LIMIT clause (None if it has none)
+fn strip_limit(sql: &str) -> Option<String> {
+    let i = sql.rfind(" LIMIT ")?;
+    if sql[i + 7..].trim().chars().all(|c| c.is_ascii_digit()) && !sql[i + 7..].trim().is_empty() { Some(sql[..i].to_string()) } else { None }
 }
